@@ -1092,6 +1092,9 @@ class ManifestRecursiveLoader:
                             raise
                     except InvalidCompressedFileExceptions:
                         pass
+                    except (EOFError, UnicodeDecodeError):
+                        # truncated compressed data, or not text at all
+                        pass
                     else:
                         new_manifests.append(fpath)
 
